@@ -408,16 +408,30 @@ def expand_member_helpers(facts, fn, depth=3, _stack=()):
                     gb = _copy_node(body(ge))
                     bind = []
                     pd = set()
+                    subst = {}
                     for p_, a in zip(g["params"], call_args(c)):
+                        a0 = strip(a)
+                        if a0 is not None and a0.get("k") == "DeclRefExpr":
+                            subst[p_["did"]] = a0          # a plain variable / parameter of the caller: the callee's parameter IS that object
+                            continue
                         pd.add(p_["did"])
                         bind.append({"k": "DeclStmt", "l": c.get("l"), "b": c.get("b"), "e": c.get("e"),
                                      "c": [{"k": "VarDecl", "name": p_["name"], "did": p_["did"], "t": p_["t"], "local": True, "initstyle": "c",
                                             "l": c.get("l"), "b": c.get("b"), "e": c.get("e"), "c": [rec(a)]}]})
-                    if pd:
-                        for x in walk(gb):
-                            if x.get("k") == "DeclRefExpr" and x.get("did") in pd:
-                                x["dk"] = "Var"
-                    ch.append({"k": "CompoundStmt", "l": c.get("l"), "b": c.get("b"), "e": c.get("e"), "c": bind + kids(gb), "inlined": g["qname"]})
+                    for x in walk(gb):
+                        if x.get("k") == "DeclRefExpr" and x.get("did") in pd:
+                            x["dk"] = "Var"
+                        if x.get("k") == "DeclRefExpr" and x.get("did") in subst:
+                            src = subst[x["did"]]
+                            keep = {k_: x[k_] for k_ in ("l", "b", "e") if k_ in x}
+                            for k_ in list(x.keys()):
+                                if k_ not in ("c",):
+                                    del x[k_]
+                            x.update({k_: v_ for k_, v_ in src.items() if not k_.startswith("_") and k_ != "c"})
+                            x.update(keep)
+                            x["b"], x["e"] = src.get("b"), src.get("e")      # source text of the caller's variable (names are compared through text in places)
+                            x["l"] = src.get("l")
+                    ch.extend(bind + kids(gb))          # spliced in place of the call statement
                     changed[0] = True
                     continue
             ch.append(rec(c))
